@@ -6,6 +6,7 @@
 # on the patched tree, prints a verdict, and removes the worktree and its build output.
 set -u
 ID=$1; SRC=$(readlink -f "$2"); MODE=${3:-tests}
+ORIGPATH=$PATH
 export GOFLAGS=-mod=mod GOPROXY=off GOSUMDB=off GOTOOLCHAIN=local GOWORK=off
 export PATH=/opt/veriftools/go1.26.8/bin:$PATH
 W=/tmp/sc/$ID; rm -rf "$W" "$W-work"; mkdir -p /tmp/sc "$W-work"
@@ -24,7 +25,10 @@ tail -5 "$W-work/demo-base.log" | sed 's/^/  base| /'; tail -8 "$W-work/demo-mut
 T=skipped
 if [ "$MODE" = tests ]; then
   rm -rf /tmp/test
-  (cd "$W" && go test -mod=mod -json -vet=off -count=1 -timeout 25m ./... ) >"$W-work/test.json" 2>"$W-work/test.err"
+  # the pinned suite runs like the baseline does: default go on PATH, toolchain switch to the
+  # go1.26.2 in the module cache (TestScript/gotoolchain depends on it), no GOSUMDB=off
+  (cd "$W" && env -u GOTOOLCHAIN -u GOSUMDB -u GOFLAGS -u GOWORK PATH="$ORIGPATH" GOPROXY=off \
+     go test -mod=mod -json -vet=off -count=1 -timeout 25m ./... ) >"$W-work/test.json" 2>"$W-work/test.err"
   T=$(python3 - "$W-work/test.json" <<'EOF'
 import json,sys
 base=json.load(open('/root/.vp/BASELINE.json'))
